@@ -23,6 +23,7 @@ import S3V.Model.Exec
 import S3V.Props.C10
 import S3V.Props.C12
 import S3V.Lemmas.Xfer3
+import S3V.Props.Serial
 
 namespace S3V.C04
 open S3V.Exec
@@ -381,5 +382,17 @@ end Pipe
 
 /-! ### non-vacuity -/
 example : Ord (Exec.init 2 1) 0 ∧ 0 < (Exec.init 2 1).workers := ⟨ord_init 2 1, by decide⟩
+
+/-- **A transfer on a serial manager always ends**: done is announced (the future is done, `result()`
+does not block), whatever raised — Ctrl-C included — and the submitting call returns -/
+theorem serial_future_done (plan : List S3V.Serial.Task) (hwf : S3V.Serial.WF plan) :
+    1 ≤ (S3V.Serial.manager S3V.Serial.Tables.current plan).1.announced ∧
+    (S3V.Serial.manager S3V.Serial.Tables.current plan).2 = none :=
+  ⟨(S3V.Serial.serial_outcome plan hwf).2.2.1, (S3V.Serial.serial_outcome plan hwf).1⟩
+
+/-- and leaves no permit behind for the next transfer to wait for (D19) -/
+theorem serial_no_permit_left (plan : List S3V.Serial.Task) (hwf : S3V.Serial.WF plan) :
+    (S3V.Serial.manager S3V.Serial.Tables.current plan).1.permits = 0 :=
+  (S3V.Serial.serial_outcome plan hwf).2.1
 
 end S3V.C04
